@@ -28,6 +28,8 @@ def strip(cmd):
             and "git checkout" not in x and "git stash" not in x and "git clean" not in x]
     import re
     keep = [re.sub(r"\b(CARGO_TARGET_DIR|CARGO_HOME|CARGO_NET_OFFLINE)=\S+\s*", "", x) for x in keep]
+    keep = [x.strip().lstrip("[]() ").rstrip("[]() ") for x in keep]
+    keep = [x for x in keep if x]
     return " && ".join(keep)
 
 res = {"deliverable": d, "worktree": wt}
